@@ -319,3 +319,8 @@ Definition write_vtt_c (d : vdoc) (style_order region_order : list str) : res st
              (match styles with [] => [] | _ => p_style ++ [10] ++ join [10] styles ++ [10;10] end) ++
              regs ++ (match vd_regions d with [] => [] | _ => [10] end) ++ items in
     slice_to c (length c - 1) 642.
+
+(* Subtitles.Items is a []*Item whose elements may be nil: WriteToWebVTT starts with s.Items = nonNilItems(s.Items)
+   (webvtt.go:472), then proceeds as above on the remaining items; [d] carries the other parts of the value *)
+Definition write_vtt_items_c (items : list (option vitem)) (d : vdoc) (style_order region_order : list str) : res str :=
+  write_vtt_c (mkVdoc (somes items) (vd_regions d) (vd_styles d) (vd_tsmap d)) style_order region_order.
